@@ -1,0 +1,39 @@
+//go:build verif
+
+package uncurry
+
+// Contracts for the uncurry plugin (C15, C01, C09), read by /verif's gvc (comment-only file).
+// $arg<d>_<i> is the i-th argument of the function literal at nesting depth d.
+
+//@ func (g *gen) Add(name string, typs []types.Type) (r string, err error)
+//@ param typs: len=0,1,2,3
+//@ param name: classes=Ident
+
+//@ func (g *gen) Generate(typs []types.Type) (err error)
+//@ param typs: len=1
+
+//@ func (g *gen) genFuncFor(ftyp *types.Signature) (err error)
+//@ param ftyp: nparams=1 nresults=1 result0kind=Signature
+//@ name-variants
+//@ emits: decls
+//@ serves: uncurry len=1 ftyp=typs[0]
+//@ o-sig: (f $ftyp) (r func())
+//@ o-header: unchecked
+//@ o-requires: f != nil && forall a val :: result(0, f, a) != nil
+//@ o-closure: cr0 cr1 cr2
+//@ o-closure-ensures: when nparams(result0(ftyp))=0 [two-calls-arguments-in-place] traceLen() == 2 && called(0, f, $arg0_0) && called(1, result(0, f, $arg0_0))
+//@ o-closure-ensures: when nparams(result0(ftyp))=0 when nresults(result0(ftyp))=1 [results-unchanged] cr0 == result(0, result(0, f, $arg0_0))
+//@ o-closure-ensures: when nparams(result0(ftyp))=0 when nresults(result0(ftyp))=2 [results-unchanged] cr0 == result(0, result(0, f, $arg0_0)) && cr1 == result(1, result(0, f, $arg0_0))
+//@ o-closure-ensures: when nparams(result0(ftyp))=0 when nresults(result0(ftyp))=3 [results-unchanged] cr0 == result(0, result(0, f, $arg0_0)) && cr1 == result(1, result(0, f, $arg0_0)) && cr2 == result(2, result(0, f, $arg0_0))
+//@ o-closure-ensures: when nparams(result0(ftyp))=1 [two-calls-arguments-in-place] traceLen() == 2 && called(0, f, $arg0_0) && called(1, result(0, f, $arg0_0), $arg0_1)
+//@ o-closure-ensures: when nparams(result0(ftyp))=1 when nresults(result0(ftyp))=1 [results-unchanged] cr0 == result(0, result(0, f, $arg0_0), $arg0_1)
+//@ o-closure-ensures: when nparams(result0(ftyp))=1 when nresults(result0(ftyp))=2 [results-unchanged] cr0 == result(0, result(0, f, $arg0_0), $arg0_1) && cr1 == result(1, result(0, f, $arg0_0), $arg0_1)
+//@ o-closure-ensures: when nparams(result0(ftyp))=1 when nresults(result0(ftyp))=3 [results-unchanged] cr0 == result(0, result(0, f, $arg0_0), $arg0_1) && cr1 == result(1, result(0, f, $arg0_0), $arg0_1) && cr2 == result(2, result(0, f, $arg0_0), $arg0_1)
+//@ o-closure-ensures: when nparams(result0(ftyp))=2 [two-calls-arguments-in-place] traceLen() == 2 && called(0, f, $arg0_0) && called(1, result(0, f, $arg0_0), $arg0_1, $arg0_2)
+//@ o-closure-ensures: when nparams(result0(ftyp))=2 when nresults(result0(ftyp))=1 [results-unchanged] cr0 == result(0, result(0, f, $arg0_0), $arg0_1, $arg0_2)
+//@ o-closure-ensures: when nparams(result0(ftyp))=2 when nresults(result0(ftyp))=2 [results-unchanged] cr0 == result(0, result(0, f, $arg0_0), $arg0_1, $arg0_2) && cr1 == result(1, result(0, f, $arg0_0), $arg0_1, $arg0_2)
+//@ o-closure-ensures: when nparams(result0(ftyp))=2 when nresults(result0(ftyp))=3 [results-unchanged] cr0 == result(0, result(0, f, $arg0_0), $arg0_1, $arg0_2) && cr1 == result(1, result(0, f, $arg0_0), $arg0_1, $arg0_2) && cr2 == result(2, result(0, f, $arg0_0), $arg0_1, $arg0_2)
+//@ o-closure-ensures: when nparams(result0(ftyp))=3 [two-calls-arguments-in-place] traceLen() == 2 && called(0, f, $arg0_0) && called(1, result(0, f, $arg0_0), $arg0_1, $arg0_2, $arg0_3)
+//@ o-closure-ensures: when nparams(result0(ftyp))=3 when nresults(result0(ftyp))=1 [results-unchanged] cr0 == result(0, result(0, f, $arg0_0), $arg0_1, $arg0_2, $arg0_3)
+//@ o-closure-ensures: when nparams(result0(ftyp))=3 when nresults(result0(ftyp))=2 [results-unchanged] cr0 == result(0, result(0, f, $arg0_0), $arg0_1, $arg0_2, $arg0_3) && cr1 == result(1, result(0, f, $arg0_0), $arg0_1, $arg0_2, $arg0_3)
+//@ o-closure-ensures: when nparams(result0(ftyp))=3 when nresults(result0(ftyp))=3 [results-unchanged] cr0 == result(0, result(0, f, $arg0_0), $arg0_1, $arg0_2, $arg0_3) && cr1 == result(1, result(0, f, $arg0_0), $arg0_1, $arg0_2, $arg0_3) && cr2 == result(2, result(0, f, $arg0_0), $arg0_1, $arg0_2, $arg0_3)
